@@ -71,6 +71,13 @@ Definition xblock_tree (b : xblock) : tree :=
   end.
 Definition xtree_of (d : xdoc) : tree := Node ROOT (map xblock_tree d).
 
+(* the tokens of any tree, in order *)
+Fixpoint leaves (t : tree) : list token :=
+  match t with
+  | Tok k s => [(k, s)]
+  | Node _ cs => (fix go (l : list tree) : list token := match l with [] => [] | x :: r => leaves x ++ go r end) cs
+  end.
+
 (* ---------------- well-formedness ---------------- *)
 Definition nonempty (s : str) : bool := match s with [] => false | _ => true end.
 Definition pay_ok (p : xpay) : bool :=
